@@ -220,16 +220,28 @@ impl Walrus {
                         .find(|(_, b)| b.id == tail_block_id)
                         .map(|(idx, _)| idx)
                     {
-                        info.cur_block_idx = idx;
-                        info.cur_block_offset = tail_off.min(info.chain[idx].used);
-                        if checkpoint {
-                            if self.should_persist(&mut info, true) {
-                                if let Ok(mut idx_guard) = self.read_offset_index.write() {
-                                    let _ = idx_guard.set(
-                                        col_name.to_string(),
-                                        info.cur_block_idx as u64,
-                                        info.cur_block_offset,
-                                    );
+                        // `persisted_tail` was taken before the column lock was released and
+                        // may be stale: other consumers may have read on meanwhile (and
+                        // `append_block_to_chain` carries their in-memory position over when
+                        // the block is sealed). Never fold the cursor backwards.
+                        let folded_off = tail_off.min(info.chain[idx].used);
+                        let behind = if info.cur_block_idx < info.chain.len() {
+                            (idx, folded_off) < (info.cur_block_idx, info.cur_block_offset)
+                        } else {
+                            info.tail_block_id == active_block.id
+                        };
+                        if !behind {
+                            info.cur_block_idx = idx;
+                            info.cur_block_offset = folded_off;
+                            if checkpoint {
+                                if self.should_persist(&mut info, true) {
+                                    if let Ok(mut idx_guard) = self.read_offset_index.write() {
+                                        let _ = idx_guard.set(
+                                            col_name.to_string(),
+                                            info.cur_block_idx as u64,
+                                            info.cur_block_offset,
+                                        );
+                                    }
                                 }
                             }
                         }
